@@ -2,6 +2,7 @@ package mon
 
 import (
 	"fmt"
+	"sort"
 	"strings"
 
 	"github.com/nlnwa/whatwg-url/url"
@@ -276,39 +277,80 @@ func (c12) Exec(ctx *core.Ctx, cs *core.Case) {
 			for _, p := range expected {
 				inNew[p.Name] = true
 			}
-			for name := range seenNames {
-				if inNew[name] || strings.ContainsRune(refmodel.Scalar(name), 0xFFFD) {
-					continue
-				}
-				for k, h := range handles {
-					if h.Has(name) || h.Get(name) != "" || len(h.GetAll(name)) != 0 {
-						ctx.Violate("after SetSearch a handle still answers for a name that is not in the new query", "Has=false", fmt.Sprintf("Has(%q)=%v Get=%q", name, h.Has(name), h.Get(name)), fmt.Sprintf("%s (handle %d, query %q)", where, k, u.Query()))
-						return
-					}
-				}
-			}
 			if v == "" && (u.Query() != "" || len(expected) != 0) {
 				ctx.Violate("SetSearch(\"\") left a query", "", u.Query(), where)
 				return
 			}
+			var absent []string
+			for name := range seenNames {
+				if !inNew[name] && !strings.ContainsRune(refmodel.Scalar(name), 0xFFFD) {
+					absent = append(absent, name)
+				}
+			}
+			sort.Strings(absent)
 			wantStr := implSerializeWith(parser, kind, expected)
-			for k, h := range handles {
+			// Three groups of reads per handle, in a per-case order, and inside a group the
+			// methods in a per-case order: whichever method a caller happens to use FIRST after
+			// SetSearch must already answer for the new query (a lazily refreshed list that one
+			// method forgets to refresh is healed by any other read).
+			groupAbsent := func(h *url.SearchParams, k int) bool {
+				for _, name := range absent {
+					var has bool
+					var get string
+					var all []string
+					for j := 0; j < 3; j++ {
+						switch (j + int(hsh>>20)) % 3 {
+						case 0:
+							has = h.Has(name)
+						case 1:
+							get = h.Get(name)
+						case 2:
+							all = h.GetAll(name)
+						}
+					}
+					if has || get != "" || len(all) != 0 {
+						ctx.Violate("after SetSearch a handle still answers for a name that is not in the new query", "Has=false", fmt.Sprintf("Has(%q)=%v Get=%q GetAll=%q", name, has, get, all), fmt.Sprintf("%s (handle %d, query %q)", where, k, u.Query()))
+						return true
+					}
+				}
+				return false
+			}
+			groupString := func(h *url.SearchParams, k int) bool {
 				if got := h.String(); got != wantStr {
 					ctx.Violate("after SetSearch a SearchParams handle does not equal the urlencoded parse of the new query", wantStr, got,
 						fmt.Sprintf("%s (handle %d of %d, query %q)", where, k, len(handles), u.Query()))
-					return
+					return true
 				}
+				return false
+			}
+			groupNames := func(h *url.SearchParams, k int) bool {
 				for _, p := range expected {
 					if strings.ContainsRune(p.Name, 0xFFFD) {
 						continue
 					}
-					all := h.GetAll(p.Name)
+					var all []string
+					var has bool
+					if (hsh>>24)&1 == 0 {
+						all, has = h.GetAll(p.Name), h.Has(p.Name)
+					} else {
+						has = h.Has(p.Name)
+						all = h.GetAll(p.Name)
+					}
 					wantAll := (&refmodel.List{Pairs: expected}).GetAll(p.Name)
 					for j := range all {
 						all[j] = refmodel.Scalar(all[j])
 					}
-					if strings.Join(all, "\x00") != strings.Join(wantAll, "\x00") || !h.Has(p.Name) {
-						ctx.Violate("after SetSearch GetAll/Has disagree with the urlencoded parse of the new query", fmt.Sprint(wantAll), fmt.Sprint(all), fmt.Sprintf("%s name %q", where, p.Name))
+					if strings.Join(all, "\x00") != strings.Join(wantAll, "\x00") || !has {
+						ctx.Violate("after SetSearch GetAll/Has disagree with the urlencoded parse of the new query", fmt.Sprint(wantAll), fmt.Sprintf("GetAll=%q Has=%v", all, has), fmt.Sprintf("%s name %q (handle %d)", where, p.Name, k))
+						return true
+					}
+				}
+				return false
+			}
+			groups := []func(*url.SearchParams, int) bool{groupAbsent, groupString, groupNames}
+			for k, h := range handles {
+				for _, g := range [][3]int{{0, 1, 2}, {1, 2, 0}, {2, 0, 1}, {0, 2, 1}, {2, 1, 0}, {1, 0, 2}}[(hsh>>16)%6] {
+					if groups[g](h, k) {
 						return
 					}
 				}
